@@ -691,6 +691,10 @@ impl Family for Link {
         gen_case(rng, idx)
     }
 
+    fn realtime(case: &str) -> bool {
+        parse(case).flavor != 0
+    }
+
     fn run(case: &str) -> Outcome {
         let cfg = parse(case);
         stat(if cfg.flavor == 0 { "flavor_paused" } else { "flavor_multi" });
